@@ -11,7 +11,7 @@ sys.path.insert(0, os.path.join(ROOT, 'tools'))
 sys.path.insert(0, '/repo')
 sys.dont_write_bytecode = True
 
-SUBCHECKS = {'C01': ['C01p']}
+SUBCHECKS = {'C01': ['C01p'], 'C03': ['C03a']}
 
 BASELINE = ('cd /repo && /venv/bin/python -m pytest -ra -q -p no:cacheprovider --timeout=900 '
             '--continue-on-collection-errors')
